@@ -58,8 +58,20 @@ def run_script(script: dict[str, Any]) -> dict[str, Any]:
                     c.send(TYPES[ty], key=key_of(next(counter), acc, stp))
             return h
 
-        for i in range(len(calls)):
-            cfg.handlers[REQUESTS[i]] = mk_instant(i)
+        same_req = bool(script.get("same_request"))    # every call writes the IDENTICAL request message (two parts of an application asking the same thing)
+        if same_req:
+            nth = itertools.count(0)
+            order: list[int] = []       # call indices in the order their requests were written
+
+            def h_same(c: DeviceConn, m: Any) -> None:
+                k = next(nth)
+                if k < len(order):
+                    mk_instant(order[k])(c, m)
+
+            cfg.handlers[REQUESTS[0]] = h_same
+        else:
+            for i in range(len(calls)):
+                cfg.handlers[REQUESTS[i]] = mk_instant(i)
         dev = sim.device(cfg)
         kw: dict[str, Any] = {}
         if script["framing"] == "noise":
@@ -105,7 +117,9 @@ def run_script(script: dict[str, Any]) -> dict[str, Any]:
                 return bool(msg.key >> 16 >> i & 1)
 
             types = tuple(getattr(pb, TYPES[t]) for t in spec["types"])
-            req = getattr(pb, REQUESTS[i])()
+            req = getattr(pb, REQUESTS[0 if same_req else i])()
+            if same_req:
+                order.append(i)
             recs[i] = sim.call(f"call{i}", lambda: conn.send_messages_await_response_complex((req,), do_append, do_stop, types, spec["timeout"]), eager=eager)
             if eager:
                 t_call[i] = sim.clock
@@ -251,6 +265,7 @@ def run_script(script: dict[str, Any]) -> dict[str, Any]:
             "closed_seq": v.closed_seq, "closed_t": v.closed_t, "fatals": v.fatals, "harness_errors": list(sim.harness_errors),
             "final_timers": [x for x in sim.live_timers() if x == "handle_timeout"], "trace": sim.trace(120),
             "t_call": t_call,
+            "requests_at_device": [r["name"] for r in dconn.received if r["name"] in REQUESTS],
             "closed_inside_dispatch_of": next((x[0] for a, b in sim.packet_spans if v.closed_seq is not None and a < v.closed_seq < b
                                                for x in arrivals if a <= x[0] < v.closed_seq), None),
         }
@@ -359,6 +374,12 @@ def judge(script: dict[str, Any], o: dict[str, Any]) -> list[tuple[str, str]]:
         late = [p for p in o["pred_log"][i] if p[0] > rec.seq_ret]
         if late:
             out.append(("C11/predicate-invoked-after-return", f"call{i} returned at seq {rec.seq_ret}; its predicates were still invoked: {late[:3]}"))
+    # every call writes its request (also when another call has just written the identical one): judged on sessions that never closed
+    if o["closed_seq"] is None and "requests_at_device" in o:
+        started = [i for i, r in enumerate(o["recs"]) if r is not None and r.outcome != "never-started"]
+        want = sorted(REQUESTS[0 if script.get("same_request") else i] for i in started)
+        if sorted(o["requests_at_device"]) != want:
+            out.append(("C11/request-not-written", f"{len(started)} calls were made ({want}); the device received {sorted(o['requests_at_device'])}"))
     for a in o["audits"]:
         if a["timeout_timers"] != a["pending"]:
             out.append(("C11/timeout-timer-leftover" if a["timeout_timers"] > a["pending"] else "C11/timeout-timer-missing",
@@ -427,6 +448,8 @@ def gen_script(rng: Any, framing: str) -> dict[str, Any]:
                 gap = "chunk"
             events.append([gap, "close", cause])
     out = {"framing": framing, "calls": calls, "events": events, "coalesce": rng.random() < 0.5}
+    if ncalls > 1 and rng.random() < 0.25:
+        out["same_request"] = True
     if any(e[1] == "close" and e[2] == "disconnect" for e in events):
         out["slow_disconnect_answer"] = rng.choice([0.0015, 0.3, 0.7])
     return out
